@@ -153,12 +153,22 @@ Print Assumptions C14_a_star_cells_spec.
    nearest, and a cell's own coordinate denotes that cell *)
 Theorem C14_pixel_nearest_centre : forall p c0 s, s <> 0 -> 0 <= (p - c0) * s ->
   forall j, Z.abs (p - (c0 + pixel_idx p c0 s * s)) <= Z.abs (p - (c0 + j * s)).
-Proof. intros p c0 s Hs Hp j. rewrite pixel_idx_is_nearest. now apply pixel_nearest_centre. Qed.
+Proof. intros p c0 s Hs Hp j. rewrite pixel_idx_is_nearest by auto. now apply pixel_nearest_centre. Qed.
 Print Assumptions C14_pixel_nearest_centre.
 
 Theorem C14_pixel_own_centre : forall c0 s i, s <> 0 -> 0 <= i -> pixel_idx (c0 + i * s) c0 s = i.
-Proof. intros c0 s i Hs Hi. rewrite pixel_idx_is_nearest. now apply pixel_own_centre. Qed.
+Proof.
+  intros c0 s i Hs Hi. rewrite pixel_idx_is_nearest; [now apply pixel_own_centre|auto|].
+  replace (c0 + i * s - c0) with (i * s) by ring. nia.
+Qed.
 Print Assumptions C14_pixel_own_centre.
+
+(* a point more than half a cell BEFORE the first centre (on the side away from the raster) gets a negative index,
+   so a_star_search refuses it as outside instead of mirroring it into the raster *)
+Theorem C14_pixel_before_first_refused : forall p c0 s, s <> 0 -> (p - c0) * s < 0 -> Z.abs s < 2 * Z.abs (p - c0) ->
+  pixel_idx p c0 s < 0.
+Proof. exact pixel_before_first_negative. Qed.
+Print Assumptions C14_pixel_before_first_refused.
 
 (* optimality, BOUNDED: on every grid up to 3x3, every free/barrier layout, every start/goal pair, both
    connectivities, the exact-cost instance returns at the goal exactly the Bellman-Ford minimum over all
@@ -220,3 +230,7 @@ Example C14_pixel_trunc_refuted :
   pixel_idx_trunc 9 0 10 = 0 /\ pixel_idx_nearest 9 0 10 = 1 /\
   pixel_idx_trunc 299 0 100 = 2 /\ pixel_idx_nearest 299 0 100 = 3.
 Proof. vm_compute. repeat split; reflexivity. Qed.
+
+(* abs(p - c0) (the older form) mirrors a point left of the first centre into the raster: x = -3 on unit centres 0.. -> column 3 *)
+Example C14_pixel_abs_mirrors_refuted : pixel_idx_nearest (-30) 0 10 = 3 /\ pixel_idx_signed (-30) 0 10 = -3.
+Proof. vm_compute. split; reflexivity. Qed.
